@@ -146,3 +146,27 @@ Definition run_ok (o : batch_obs) (r : run_obs) : bool :=
   forallb (fun x => match alone_of (b_alone o) (fst x) with Some s0 => sgn_close (snd x) s0 | None => false end)
           (o_results r).
 Definition obs_ok (o : batch_obs) : bool := forallb (run_ok o) (b_runs o).
+
+(* ====================================================================================================
+   The spectrum fold of planning() instantiated with the C14 model (Model/Spectrum.v, referred to by qualified names):
+   pth_assign_spectrum serves the requests in order on the OMS bitmaps; a request that is already blocked is skipped.
+   `sreq` says how a request and its verdict become a spectrum request (bandwidth, spacing, bit rate, N/M slots, OMS ids of
+   path + reverse path; pre_blocked = the request carries a blocking reason).  An exception stops planning(): the error is
+   carried along.
+   ==================================================================================================== *)
+From Verif Require Model.Spectrum.
+Definition sstate := res Spectrum.state.
+Definition spectrum_assign (pol : Spectrum.policy) (sreq : request -> bool -> Spectrum.request)
+  : sstate -> request -> bool -> sstate * res Spectrum.outcome :=
+  fun ss rq ok =>
+    match ss with
+    | Err e => (Err e, Err e)
+    | Ok st =>
+        match Spectrum.pth_assign_one pol st (sreq rq ok) with
+        | Ok (st', o) => (Ok st', Ok o)
+        | Err e => (Err e, Err e)
+        end
+    end.
+(* the spectrum requests of a batch, in order *)
+Definition sreqs_of (sreq : request -> bool -> Spectrum.request) (n : network) (rqs : list request) : list Spectrum.request :=
+  map (fun rq => sreq rq (r_ok (fst (evaluate n rq)))) rqs.
